@@ -42,17 +42,18 @@ Definition tables_agree (a b : list fmt_row) : bool :=
   forallb (fun r => existsb (row_eqb r) b) a && forallb (fun r => existsb (row_eqb r) a) b.
 
 (* ---- the path of every option: flag -> (file written by the driver) -> load -> FontConfig.
-   One row per FontConfig field, regenerated from config.py's source on every run. *)
+   One row per FontConfig field, regenerated on every run by calling the real config.write / config.load with two
+   distinct probe values per option (harness/config_probe.py); until session 4 the rows were read off the text. *)
 Record cfg_row := CfgRow {
   c_name : string;
   c_type : string;            (* annotation of the FontConfig field *)
-  c_flag : string;            (* kind of the flag of the same name ("" = no flag) *)
+  c_flag : string;            (* kind of the flag of the same name in absl's registry ("" = no flag) *)
   c_flag_unset_is_none : bool;(* the flag's default is None, so "not given" is distinguishable *)
-  c_written : bool;           (* config.write stores config.<name> under "<name>" *)
-  c_loaded : bool;            (* config.load takes _pop_flag(config, "<name>") into the local <name> *)
-  c_cast : string;            (* int / float around the _pop_flag *)
-  c_passed : bool;            (* load's FontConfig(...) receives <name>=<name> *)
-  c_rebound : bool }.         (* the local is assigned again before it is passed *)
+  c_written : bool;           (* config.write stores the field's value under "<name>" (observed for both probes) *)
+  c_loaded : bool;            (* config.load, flag not given: the file's value arrives in the field (both probes) *)
+  c_cast : string;            (* an integer option given as 7.0 arrives as the int 7 / a float option given as 1 as 1.0 *)
+  c_passed : bool;            (* config.load, flag given: the flag's value arrives, whatever the file says (both ways round, and with no file value) *)
+  c_rebound : bool }.         (* the value that arrives has another type than the one given (the transform is parsed) *)
 
 (* the documented options (README / --help) and the kind of value each takes; written by hand *)
 Definition config_spec : list (string * string) := [
